@@ -19,7 +19,7 @@ def run(chk):
     rng = chk.rng.fork("c02")
     progs, icases, mcases = [], [], []
     for i in range(n):
-        p = asm_gen.gen_shift_prog(rng) if rng.chance(0.15) else asm_gen.gen_prog(rng, size_static=rng.chance(0.25), collide=rng.chance(0.35), boundary=rng.chance(0.2))
+        p = asm_gen.gen_chain_prog(rng) if rng.chance(0.1) else asm_gen.gen_shift_prog(rng) if rng.chance(0.15) else asm_gen.gen_prog(rng, size_static=rng.chance(0.25), collide=rng.chance(0.35), boundary=rng.chance(0.2))
         b = rng.weighted([(1, 5), (2, 10), (3, 15), (4, 15), (5, 10), (10, 25), (11, 5), (30, 15)]) if rng.chance(0.8) else rng.range(1, 30)
         s, m = rng.chance(0.5), rng.chance(0.5)
         progs.append((p, b, s, m))
@@ -50,7 +50,7 @@ def run(chk):
             if ci[2] > b:
                 chk.violation("reported %d passes with budget %d" % (ci[2], b), rep)
             f = a.split("\t")
-            cert_cases.append((p, b, m, "cert", f[4] if len(f) > 4 else "", f[1]))
+            cert_cases.append((p, b, m, "cert", (f[4] if len(f) > 4 else "") + (f[5] if len(f) > 5 else ""), f[1]))
             cert_idx.append(i)
         if (ci[0], ci[1], ci[2], ci[3]) != (cm[0], cm[1], cm[2], cm[3]):
             ndis += 1
